@@ -593,9 +593,6 @@ Qed.
 Lemma dispose_reaches_root s : dispose s = roots s.
 Proof.
   induction s as [id n pk | t idxs s IH | b parts IH | t s IH] using stack_ind'; simpl; auto.
-  induction IH as [|p ps Hp Hps IHp]; simpl.
-  - reflexivity.
-  - now rewrite Hp, IHp.
 Qed.
 
 Lemma dispose_linear_chain ls id n pk : dispose (build ls (Root id n pk)) = [id].
